@@ -304,6 +304,10 @@ class Parser:
         while not self.at(')'):
             pt = self.parse_type()
             pn = self.next()[1]
+            if self.accept('['):
+                n = self.parse_expr() if not self.at(']') else ('num', 1 << 62, LONG)
+                self.expect(']')
+                pt = ArrT(pt, n)
             params.append((pn, pt))
             if not self.accept(','):
                 break
@@ -727,9 +731,7 @@ class VCGen:
         if isinstance(ct, ArrT):
             if isinstance(ct.elem, IntT):
                 n = self.fresh(base, '(Array Int Int)')
-                k = 'k!q'
-                self.defs.append("(forall ((%s Int)) (and (<= %s (select %s %s)) (<= (select %s %s) %s)))" % (
-                    k, smt_int(ct.elem.lo()), n, k, n, k, smt_int(ct.elem.hi())))
+                # element type ranges are asserted per read (see 'index'), not by a quantified axiom
                 return ('arr', n, ct.elem, ct.n)
             raise Unsupported("array of non-integers")
         raise Unsupported("havoc of type %r" % (ct,))
@@ -892,7 +894,13 @@ class VCGen:
             it = as_int(i)
             n = self.ev(a[3], st, line)
             self.oblige(st, 'bounds', line, "array index in bounds", S('and', S('<=', '0', it), S('<', it, as_int(n))))
-            return Val(S('select', a[1], it), 'I', a[2])
+            rd = self.fresh('rd')
+            self.defs.append(S('=', rd, S('select', a[1], it)))
+            if a[2].isbool:
+                self.defs.append(S('or', S('=', rd, '0'), S('=', rd, '1')))
+                return Val(S('=', rd, '1'), 'B', a[2])
+            self.defs.append(S('and', S('<=', smt_int(a[2].lo()), rd), S('<=', rd, smt_int(a[2].hi()))))
+            return Val(rd, 'I', a[2])
         if k == 'un':
             op = e[1]
             if op == '!':
@@ -1010,11 +1018,16 @@ class VCGen:
                     # x & (2^k - 1): low k bits (two's complement => mod for either sign)
                     return self.define('m', Val(S('mod', x, smt_int(int(y) + 1)), 'I', ct))
         if op in ('&', '|', '^') and not isinstance(ct, MathT):
-            # general bitwise operator: through bit-vectors of the operand type's width (two's complement)
+            # general bitwise operator: bit decomposition over Int (two's complement of the operand type's width)
             w = ct.bits
-            def tobv(x):
-                return "((_ int2bv %d) %s)" % (w, x)
-            r = "(bv2nat (%s %s %s))" % ({'&': 'bvand', '|': 'bvor', '^': 'bvxor'}[op], tobv(at), tobv(bt))
+            def bits_of(x):
+                ux = S('mod', x, smt_int(1 << w)) if ct.signed else x
+                bs = [self.fresh('bit', 'Bool') for _ in range(w)]
+                self.defs.append(S('=', ux, S('+', *[S('ite', b, smt_int(1 << i), '0') for i, b in enumerate(bs)])))
+                return bs
+            ab, bb = bits_of(at), bits_of(bt)
+            comb = {'&': 'and', '|': 'or', '^': 'xor'}[op]
+            r = S('+', *[S('ite', S(comb, x, y), smt_int(1 << i), '0') for i, (x, y) in enumerate(zip(ab, bb))])
             if ct.signed:
                 half = smt_int(1 << (w - 1))
                 r = S('ite', S('>=', r, half), S('-', r, smt_int(1 << w)), r)
@@ -1329,7 +1342,7 @@ class VCGen:
             env2 = dict(rst.env)
             # postconditions speak about parameters' entry values (by-value params) unless pointer
             for pn, pt in f['params']:
-                if not isinstance(pt, PtrT):
+                if not isinstance(pt, (PtrT, ArrT)):
                     env2[pn] = old[pn]
             env2['__retval'] = v
             env2['__old'] = old
@@ -1425,6 +1438,20 @@ def discharge(o, timeout=60, want_sat=False):
             result = _run_race(path, ('z3-new', 'cvc5'), timeout)
     finally:
         os.unlink(path)
+    if result is None:
+        # falsification assist: the same query restricted to small values of every integer constant. Only `sat` counts
+        # (a model of the restricted query is a model of the original one); `unsat` here proves nothing.
+        small = [S('and', S('<=', '(- 4096)', n), S('<=', n, '4096')) for n, srt in o.decls if srt == 'Int']
+        o2 = Obligation(o.name, o.cls, o.line, o.desc, o.decls, o.asserts + small, o.goal, o.fn)
+        with tempfile.NamedTemporaryFile('w', suffix='.smt2', delete=False, dir=os.environ.get('INTWP_TMP', '/var/tmp')) as f:
+            f.write(o2.smt())
+            path2 = f.name
+        try:
+            r2 = _run_race(path2, ('z3-new', 'cvc5'), min(timeout, 30))
+        finally:
+            os.unlink(path2)
+        if r2 is not None and r2[1] == 'sat':
+            result = (r2[0] + '(small-domain search)', 'sat', r2[2])
     o.secs = time.time() - t0
     if result is None:
         o.status, o.solver = 'unknown', 'z3-new+cvc5'
